@@ -48,7 +48,8 @@ class Leg:
         paths = []
         for g in gens:
             mod, cfg = g[0], g[1]
-            env = g[2] if len(g) > 2 else None
+            env = dict(self.spec.get("env") or {})
+            env.update(g[2] if len(g) > 2 else {})
             p, r = core.cached_gen(mod, cfg, os.path.join(self.work, "gen"), "%s-%s" % (mod, cfg.replace(".cfg", "")), env=env,
                                    timeout=self.spec.get("gen_timeout", 1800))
             paths.append(p)
@@ -66,19 +67,55 @@ class Leg:
 
     def drive(self, binary, only=None, tag="run"):
         out = os.path.join(self.work, "%s-%s.ndjson" % (self.name, tag))
-        args = ["-out", out, "-tier", self.tier, "-seed", str(self.seed), "-prop", self.prop]
+        args = ["-tier", self.tier, "-seed", str(self.seed), "-prop", self.prop]
         if self.scen_file:
             args += ["-scenarios", self.scen_file]
         if only is not None:
             args += ["-only", ",".join(str(i) for i in sorted(only))]
         args += self.spec.get("args", [])
-        core.run_driver(binary, args, timeout=self.spec.get("driver_timeout", 3600), env=self.spec.get("env"))
+        shards = self.spec.get("shards_" + self.tier, self.spec.get("shards", 1))
+        if only is not None and len(only) < 64:
+            shards = 1
+        if shards <= 1:
+            core.run_driver(binary, ["-out", out] + args, timeout=self.spec.get("driver_timeout", 3600), env=self.spec.get("env"))
+            return out
+        # one OS process per shard (the client keeps its state in package globals); trace ids are disjoint
+        import concurrent.futures
+        parts = ["%s.part%d" % (out, k) for k in range(shards)]
+        def one(k):
+            core.run_driver(binary, ["-out", parts[k], "-shard", "%d/%d" % (k, shards)] + args,
+                            timeout=self.spec.get("driver_timeout", 3600), env=self.spec.get("env"))
+        with concurrent.futures.ThreadPoolExecutor(max_workers=shards) as ex:
+            for f in [ex.submit(one, k) for k in range(shards)]:
+                f.result()
+        # merge, renumbering the traces densely (TLC registers are indexed by trace id)
+        infos = []
+        nxt = 0
+        with open(out, "w") as o:
+            for p in parts:
+                remap = {}
+                with open(p) as f:
+                    for ln in f:
+                        e = json.loads(ln)
+                        if e["t"] not in remap:
+                            nxt += 1
+                            remap[e["t"]] = nxt
+                        e["t"] = remap[e["t"]]
+                        o.write(json.dumps(e) + "\n")
+                for i in json.load(open(p + ".idx.json")):
+                    if i["t"] in remap:
+                        i["t"] = remap[i["t"]]
+                        infos.append(i)
+                os.remove(p)
+                os.remove(p + ".idx.json")
+        json.dump(infos, open(out + ".idx.json", "w"))
         return out
 
     def validate(self, trace_file):
         mod, cfg = self.spec["trace"]
         r, rej, invf = core.validate(mod, cfg, os.path.join(self.work, "tv"), trace_file,
-                                     timeout=self.spec.get("trace_timeout", 3600), heap=self.spec.get("heap"))
+                                     timeout=self.spec.get("trace_timeout", 3600), heap=self.spec.get("heap"),
+                                     env=self.spec.get("env"))
         return r, rej, invf
 
 
@@ -122,7 +159,8 @@ def _run(prop, reg, tier, seed, work, known, t0, replay):
     tv_states = tv_trans = 0
     gen_scen = 0
     leg_summ = []
-    for lspec in reg["legs"]:
+    legs = reg["legs_fn"](tier) if "legs_fn" in reg else reg["legs"]
+    for lspec in legs:
         if replay and lspec["name"] != replay["leg"]:
             continue
         if os.environ.get("VERIF_LEG") and lspec["name"] not in os.environ["VERIF_LEG"].split(","):
